@@ -250,7 +250,7 @@ class Call2Mixin:
       self.ghost[f'{lk.name}.free'] = VBool(self.fresh_bool(f'{lk.name}.free'))
       return
     parts = path.split('.')
-    v = env[parts[0]]
+    v = env[parts[0]] if parts[0] in env else self.lookup(parts[0], env)
     for p in parts[1:-1]:
       v = self.getattr_(v, p)
     if len(parts) == 1:
@@ -481,6 +481,14 @@ class Call2Mixin:
       return VBool(is_stop_fn(v.sym))
     return VBool(isinstance(v, VExc) and exc_isinstance(v.cls, 'StopIteration'))
 
+  def sf_local(self, node, env):
+    """local('x'): the current value of local variable x of the function under verification."""
+    name = self.ev(node.args[0], env).s
+    te = getattr(self, 'top_env', None)
+    if te is None or name not in te:
+      raise Unsupported(f'no local {name}')
+    return te[name]
+
   def sf_ncalls(self, node, env):
     name = self.ev(node.args[0], env).s
     return VInt(sum(1 for n, _ in self.call_log if n.endswith(name)))
@@ -630,7 +638,7 @@ def _internal(clause, c=None):
 def _internal0(clause):
   """Clauses about the callee's own execution trace (ghost call counters, time-out flag) are proved
   for the callee but are not facts about the caller's state: they are not assumed at call sites."""
-  return any(tok in clause for tok in ('ncalls(', 'timed_out(', 'last_result('))
+  return any(tok in clause for tok in ('ncalls(', 'timed_out(', 'last_result(', 'local('))
 
 
 def _walk_fn(node):
